@@ -91,6 +91,12 @@ func suiteStore(r *rng, n int) {
 	// the registry hands out one instance per url, and different urls are different stores
 	again, _ := store.NewStore("badger://" + dirs[0])
 	emit("store", "registry", b2s(again == ss[0]), b2s(ss[0] != ss[1]))
+	// a record of any size the cache may produce (a 17 MB body) is stored and read back whole
+	big := bytes.Repeat([]byte("0123456789abcdef"), (17<<20)/16)
+	eb := ss[1].Set(keys[2], big, time.Minute)
+	db, eg := ss[1].Get(keys[2])
+	emit("store", "bigvalue", b2s(eb == nil && eg == nil && bytes.Equal(db, big)))
+	_ = ss[1].Delete(keys[2])
 	// a store never writes into the key it is handed (the caller's key buffer is also the shard's map key)
 	orig := storeKeys()
 	same := true
